@@ -3,9 +3,11 @@
    base64url, '.', DID and CID strings; checked against formatter.FormatSignPayload on every
    run).  Only the signature primitive is symbolic: `valid k m s` is the verifier of key k
    accepting signature s for message m; the two hypotheses name exactly what is assumed of
-   Ed25519 / RSA.  Tamper detection holds on the tokens whose payload is json_safe (no map of
-   the reserved dag-json shapes {"/": string} / {"/": {"bytes": string}}, every string valid
-   UTF-8) and is REFUTED without that premise (the dag-json collisions, KNOWN_FINDINGS). *)
+   Ed25519 / RSA.  Issue and VerifySignature refuse a payload that DAG-JSON cannot represent
+   unambiguously (checkSignable, fixes/C07_signable.diff: Signing.signable); with that guard
+   tamper detection holds for every token that verifies.  Without the guard (5d39523) it is
+   REFUTED (the dag-json collisions).  Floats are outside the model (KNOWN_FINDINGS
+   json-integral-float). *)
 From Ucanto Require Import Base Ipld Cbor Formats BaseEnc JsonText Did DagJson Signing SigningExample.
 
 Section C07.
@@ -17,13 +19,18 @@ Section C07.
 
   (* every token the library issues — with any combination of expiration / no expiration,
      not-before, nonce, facts, proofs, capabilities, caveat values, any key — verifies
-     against its issuer's verifier *)
-  Theorem C07_issue_verifies : forall k ver aud att prf exp fct nnc nbf,
-    verify valid alg_of did_of (issue sign alg_of did_of k ver aud att prf exp fct nnc nbf) k = true.
+     against its issuer's verifier; Issue fails exactly when encodeSignaturePayload refuses the payload *)
+  Theorem C07_issue_verifies : forall k ver aud att prf exp fct nnc nbf t,
+    issue sign alg_of did_of k ver aud att prf exp fct nnc nbf = Some t -> verify valid alg_of did_of t k = true.
   Proof. exact (issue_verifies sign valid alg_of did_of valid_sign). Qed.
 
+  Theorem C07_issue_fails_iff : forall k ver aud att prf exp fct nnc nbf,
+    issue sign alg_of did_of k ver aud att prf exp fct nnc nbf = None <->
+    signing_input (alg_of k) (mkU ver (did_of k) aud [] att prf exp fct nnc nbf) = None.
+  Proof. exact (issue_none_iff sign alg_of did_of). Qed.
+
   (* ... and still does after being encoded, transported and decoded (the decoder returns the
-     token with caveats / facts in canonical map order; the signed bytes do not change) *)
+     token with caveats / facts in canonical map order; guard and signed bytes do not change) *)
   Theorem C07_transport_bytes : forall t,
     wf_ipld (token_ipld t) = true -> in_budget (token_ipld t) = true ->
     token_decode (token_bytes t) = Some (canon_token t).
@@ -33,16 +40,20 @@ Section C07.
     verify valid alg_of did_of t k = true -> verify valid alg_of did_of (canon_token t) k = true.
   Proof. exact (verify_after_transport valid alg_of did_of). Qed.
 
+  (* a token whose payload is not signable verifies for no key *)
+  Theorem C07_unsignable_rejected : forall t k,
+    signable (alg_of k) t = false -> verify valid alg_of did_of t k = false.
+  Proof. exact (unsignable_rejected valid alg_of did_of). Qed.
+
   (* tamper detection: if t verifies for k and t' carries the same signature bytes and also
      verifies for k, then t' has the same version, issuer, audience, capabilities and caveats,
      proofs, expiration, facts, nonce and not-before — so a change to any signed field with the
-     signature kept makes verification fail.  Domain: payloads that are json_safe. *)
+     signature kept makes verification fail.  (The wf / bytes premises only say that the
+     tokens are values a decoder can produce: bytes < 256, distinct map keys.) *)
   Theorem C07_tamper : forall t t' k,
-    json_safe (header_ipld (alg_of k) (u_v t)) = true -> json_safe (header_ipld (alg_of k) (u_v t')) = true ->
     wf_ipld (header_ipld (alg_of k) (u_v t)) = true -> wf_ipld (header_ipld (alg_of k) (u_v t')) = true ->
-    json_safe (payload_ipld t true) = true -> json_safe (payload_ipld t' true) = true ->
     wf_ipld (payload_ipld t true) = true -> wf_ipld (payload_ipld t' true) = true ->
-    token_ids_ok t = true -> token_ids_ok t' = true ->
+    token_bytes_ok t = true -> token_bytes_ok t' = true ->
     verify valid alg_of did_of t k = true -> verify valid alg_of did_of t' k = true -> u_s t' = u_s t ->
     u_v t' = u_v t /\ u_iss t' = u_iss t /\ u_aud t' = u_aud t /\
     map canon_cap (u_att t') = map canon_cap (u_att t) /\ prf_list t' = prf_list t /\
@@ -74,9 +85,12 @@ Theorem C07_signed_bytes_determine_fields : forall alg alg' t t',
   u_nnc t = u_nnc t' /\ u_nbf t = u_nbf t'.
 Proof. exact sign_payload_inj. Qed.
 
-(* json_safe of the payload follows from a condition on the token's own fields *)
-Theorem C07_payload_safe_of_token : forall t, token_json_safe t = true -> json_safe (payload_ipld t true) = true.
-Proof. exact payload_safe_of_token. Qed.
+(* what the guard establishes: header and payload are in the domain where dag-json is injective,
+   issuer and audience are decodable DIDs *)
+Theorem C07_signable_gives : forall alg t, signable alg t = true ->
+  json_safe (header_ipld alg (u_v t)) = true /\ json_safe (payload_ipld t true) = true /\
+  did_okb (u_iss t) = true /\ did_okb (u_aud t) = true.
+Proof. exact signable_gives. Qed.
 
 (* dag-json is injective on json_safe values, up to the order of map entries, and blind to it *)
 Theorem C07_dagjson_injective : forall a b,
@@ -123,18 +137,21 @@ Theorem C07_dagjson_injective_unrestricted_refuted :
   ~ (forall a b, wf_ipld a = true -> wf_ipld b = true -> json_encode a = json_encode b -> canon a = canon b).
 Proof. exact json_inj_refuted. Qed.
 
-(* ... so tamper detection without the json_safe premise is false: two different tokens with the
-   same signature both verify (witness: caveat bytes replaced by the map that prints the same) *)
-Theorem C07_tamper_unrestricted_refuted : ~ tamper_unrestricted.
-Proof. exact tamper_unrestricted_refuted. Qed.
+(* ... so tamper detection for the verification WITHOUT the guard (5d39523) is false: two different
+   tokens with the same signature both verified (witness: caveat bytes replaced by the map that
+   prints the same) *)
+Theorem C07_tamper_pinned_refuted : ~ tamper_unguarded.
+Proof. exact tamper_unguarded_refuted. Qed.
 
 Print Assumptions C07_issue_verifies.
+Print Assumptions C07_issue_fails_iff.
+Print Assumptions C07_unsignable_rejected.
 Print Assumptions C07_transport_bytes.
 Print Assumptions C07_transport_verifies.
 Print Assumptions C07_tamper.
 Print Assumptions C07_other_principal.
 Print Assumptions C07_signed_bytes_determine_fields.
-Print Assumptions C07_payload_safe_of_token.
+Print Assumptions C07_signable_gives.
 Print Assumptions C07_dagjson_injective.
 Print Assumptions C07_dagjson_key_order.
 Print Assumptions C07_base64url_injective.
@@ -146,4 +163,4 @@ Print Assumptions C07_dagjson_collision_bytes.
 Print Assumptions C07_dagjson_collision_link.
 Print Assumptions C07_dagjson_collision_utf8.
 Print Assumptions C07_dagjson_injective_unrestricted_refuted.
-Print Assumptions C07_tamper_unrestricted_refuted.
+Print Assumptions C07_tamper_pinned_refuted.
